@@ -1846,6 +1846,16 @@ lyd_diff_merge_delete(struct lyd_node *diff_match, enum lyd_diff_op cur_op, cons
             } else {
                 meta_name = "value";
             }
+        } else if (diff_match->schema->nodetype & LYD_NODE_ANY) {
+            union lyd_any_value anyval;
+
+            /* switch value for the original one */
+            meta = lyd_find_meta(diff_match->meta, NULL, "yang:orig-value");
+            LY_CHECK_ERR_RET(!meta, LOGERR_META(ctx, "yang:orig-value", diff_match), LY_EINVAL);
+            anyval.str = lyd_get_meta_value(meta);
+            LY_CHECK_RET(lyd_any_copy_value(diff_match, &anyval, LYD_ANYDATA_STRING));
+
+            meta_name = "orig-value";
         } else {
             assert(diff_match->schema->nodetype == LYS_LEAF);
 
